@@ -49,6 +49,10 @@ type Plan struct {
 	ExpPhase  int    `json:"expphase"` // modify: 0 default 1 any 2 tearingDown
 	Cached    bool   `json:"cached"`
 	Noise     int    `json:"noise"` // extra unrelated declarations
+	// Dyn (plain flavour): 0 inputs declared at registration; 1 registered without the inputs of the relation(s), which are
+	// then declared through UpdateInputs before the attempt; 2 registered with additional strong inputs covering the
+	// target, which are dropped through UpdateInputs (a pure shrink) before the attempt.
+	Dyn int `json:"dyn,omitempty"`
 }
 
 const (
@@ -73,6 +77,7 @@ func Gen(t *rapid.T) Plan {
 		ExpPhase:  rapid.IntRange(0, 2).Draw(t, "expphase"),
 		Cached:    rapid.Bool().Draw(t, "cached"),
 		Noise:     rapid.IntRange(0, 3).Draw(t, "noise"),
+		Dyn:       rapid.SampledFrom([]int{0, 0, 1, 2}).Draw(t, "dyn"),
 	}
 }
 
@@ -108,6 +113,21 @@ func PairMatrix() []Plan {
 						out = append(out, Plan{Flavor: fl, Op: op, Relation: r1, Relation2: r2, Owner: ow})
 					}
 				}
+			}
+		}
+	}
+
+	return out
+}
+
+// DynMatrix enumerates operation x relation x {declared late, shrunk} for the plain flavour (target owned by nobody).
+func DynMatrix() []Plan {
+	var out []Plan
+
+	for _, dyn := range []int{1, 2} {
+		for _, op := range Ops {
+			for _, rel := range Relations {
+				out = append(out, Plan{Flavor: "plain", Op: op, Relation: rel, Owner: "ownerless", Dyn: dyn})
 			}
 		}
 	}
@@ -409,9 +429,57 @@ func runBubble(p Plan) (v hk.Verdict) {
 
 	var regErr error
 
+	dyn := 0
 	if p.Flavor == "plain" {
-		regErr = w.RT.RegisterController(&sim.PlainProbe{W: w, NameStr: me, Ins: nil, Outs: outs, DeclIns: ins,
-			OnWake: func(ctx context.Context, r controller.Runtime, _ *sim.PlainProbe, _ int) { do(ctx, r) }})
+		dyn = p.Dyn
+	}
+
+	var updErr error
+
+	if p.Flavor == "plain" {
+		regIns := ins
+
+		switch dyn {
+		case 1:
+			// everything on the target type is declared later
+			regIns = []sim.InSpec{}
+
+			for _, i := range ins {
+				if i.Typ != tt {
+					regIns = append(regIns, i)
+				}
+			}
+		case 2:
+			regIns = append([]sim.InSpec{}, ins...)
+
+			for _, extra := range []sim.InSpec{{NS: "n1", Typ: tt, Kind: controller.InputStrong}, {NS: "n1", Typ: tt, ID: tid, Kind: controller.InputStrong}} {
+				clash := false
+
+				for _, i := range ins {
+					if i.NS == extra.NS && i.Typ == extra.Typ && i.ID == extra.ID {
+						clash = true
+					}
+				}
+
+				if !clash {
+					regIns = append(regIns, extra)
+				}
+			}
+		}
+
+		regErr = w.RT.RegisterController(&sim.PlainProbe{W: w, NameStr: me, Ins: nil, Outs: outs, DeclIns: regIns,
+			OnWake: func(ctx context.Context, r controller.Runtime, _ *sim.PlainProbe, _ int) {
+				if dyn != 0 && !once {
+					var cins []controller.Input
+					for _, i := range ins {
+						cins = append(cins, i.ToInput())
+					}
+
+					updErr = r.UpdateInputs(cins)
+				}
+
+				do(ctx, r)
+			}})
 	} else {
 		regErr = w.RT.RegisterQController(&hookProbe{name: me, ins: ins, outs: outs, hook: func(ctx context.Context, r controller.QRuntime) { do(ctx, r) }})
 	}
@@ -442,6 +510,23 @@ func runBubble(p Plan) (v hk.Verdict) {
 		v.Failf("harness: the attempt never ran")
 
 		return v
+	}
+
+	if updErr != nil {
+		if p.Relation2 != "" && p.Relation2 != p.Relation {
+			v.Label("pair-rejected-at-update")
+			v.Outcome = "UpdateInputs rejected: " + updErr.Error()
+
+			return v
+		}
+
+		v.Failf("harness: UpdateInputs(%+v) rejected: %v", ins, updErr)
+
+		return v
+	}
+
+	if dyn != 0 {
+		v.Label(fmt.Sprintf("inputs-changed-through-UpdateInputs:%d", dyn))
 	}
 
 	log, after := w.Snapshot()
